@@ -5,5 +5,5 @@ CONSTANTS
   Vals <- V3
   MaxD = 3
   Variant = "orig"
-INVARIANT Half
+INVARIANT Succeeds
 CHECK_DEADLOCK FALSE
